@@ -1,10 +1,34 @@
-(* C02 property theorems (statements closed by [exact]); filled as the proofs land. *)
-From Tbfmm Require Import Base.Prelude Index.MortonDefs Tree.GroupDefs Tree.BuildDefs Tree.Invariant Exec.ExecDefs.
+(* C02 — every operator call receives geometrically consistent arguments.
+   Statements only; proofs in Spec/Corollaries.v. *)
+From Tbfmm Require Import Base.Prelude Index.MortonDefs Index.ListsDefs Index.ListsSpec Tree.GroupDefs Tree.BuildDefs
+     Tree.Invariant Exec.ExecDefs Spec.Elem Spec.Corollaries.
 Local Open Scope Z_scope.
 
-(* non-vacuity / smoke: the model executes a concrete tree without any assertion failure *)
-Theorem C02_example_no_assert :
-  forallb (fun c => match c with CAssert _ => false | _ => true end)
-          (execute 3 false 2 63 (build (parent 3) 4 2 false [5;5;63;0;9;12;9;300;301;511])) = true.
+(* every call of every execute(flags), on any well-formed tree, periodic lists or not:
+   - leaf operators receive exactly the particles of an occupied leaf (non-empty);
+   - upward/downward translations receive 1..2^d pairwise distinct children of the given parent, all existing at level l+1,
+     each with the position code child_code = its octant (see C11_child_code_octant), the parent existing at level l;
+   - transfers receive 1..6^d-3^d sources existing at the level, each a member of the target's interaction list
+     (so its code decodes to the true relative offset, well separated, parents adjacent: C02_ilist_geometry);
+   - direct interactions receive two occupied leaves with their particle sets, the source being the neighbour designated by the
+     code (C02_nlist_geometry);  no internal assertion fires and no call has an empty source list *)
+Theorem C02_args_consistent : forall d per H B mode s flags t idx, (0 < d)%nat -> 1 <= H ->
+  tree_ok (parent d) H B mode t -> particles_ok idx t ->
+  Forall (fun i => 0 <= i < 2 ^ ((H - 1) * dz d)) idx -> idx <> [] ->
+  Forall (call_ok d per H t) (execute d per s flags t).
+Proof. exact args_consistent. Qed.
+Print Assumptions C02_args_consistent.
+
+Theorem C02_ilist_geometry : forall d per l tg src code,
+  In (src, code) (ilist_spec d per l tg) ->
+  exists o, let u := map2 Z.add (unbox d tg) o in
+    length o = d /\ Forall (fun x => -3 <= x <= 3) o /\ code = enc7 o /\ dec7 d code = o /\
+    too_close o = false /\ parents_adjacent (unbox d tg) u = true /\
+    src = box d (if per then wrap l u else u) /\ (per = false -> in_grid l u = true) /\ ilist_active per l = true.
+Proof. exact ilist_spec_geometry. Qed.
+Print Assumptions C02_ilist_geometry.
+
+Example C02_example :
+  let t := build (parent 3) 4 3 false [5;5;63;0;9;12;9;300;301;511] in
+  existsb (fun c => match c with CM2L 2 _ (_ :: _) => true | _ => false end) (execute 3 false 2 63 t) = true.
 Proof. vm_compute. reflexivity. Qed.
-Print Assumptions C02_example_no_assert.
